@@ -227,6 +227,20 @@ PROPS.update({
                       "duration_since saturating, Instant::now() arbitrary. Configuration assumptions never checked by the code: timeout > 0 (else update loops forever), "
                       "limit < u32::MAX.",
     },
+    "C18": {
+        "title": "Unacknowledged mode is one-way unless closure is requested; closure works",
+        "verus": [("send", ["O-C18-"])],
+        "level": "proof",
+        "technique": "deductive verification (Verus/Z3) of contracts on the sender's send_pdu / process_pdu / send_indication",
+        "design_ref": "DESIGN.md 4/C18",
+        "level_text": "Partial, proof of function contracts on the SENDER: in unacknowledged mode send_pdu ends the transaction (state Terminated, Finished indication) "
+                      "with the emission of the EOF when no closure was requested and leaves it waiting when closure was requested; process_pdu never queues a "
+                      "retransmission or re-arms the EOF in unacknowledged mode, whatever the peer sends; with closure requested a Finished PDU ends the transaction and "
+                      "its condition, delivery code and file status become the sender's, and every Finished indication carries exactly the outcome the transaction holds "
+                      "(precondition of send_indication, checked at every call site); without closure a Finished PDU is refused. NOT decided here: that the sender "
+                      "transmits each file-data PDU once (first-pass tiling: C07), the waiting 'up to its limits' (timers: C17), and the two-party sentence as a whole.",
+        "level_note": VERUS_NOTE,
+    },
     "C19": {
         "title": "Suspend really suspends",
         "verus": [("timer", ["O-C19-"]), ("send", ["O-C19-"]), ("recv", ["O-C19-"])],
@@ -266,5 +280,4 @@ NOT_APPLICABLE = {
     "C10": "cancel handshakes at both entities under every interleaving and loss pattern: schedules and a peer; the single-entity fragments live in process_pdu (async/iterator-heavy, outside the verifiers' subset)",
     "C11": "isolation of concurrent tokio tasks and routing inside async fn forward_pdu: Kani has no async/thread support, Verus has no model of tokio channels; nothing here is a function contract",
     "C13": "each request's outcome is a function of live filesystem state (exists, is_file, syscalls) which no verifier here executes or models",
-    "C18": "one-way/closure behaviour is the interplay of both state machines' process_pdu/send_pdu reactions; not expressible as contracts on the functions within reach",
 }
